@@ -70,6 +70,7 @@ var gfTargets = []gfTarget{
 	{"instance", "core/engine/instance.go", "gen_prog_instance", []string{"instance.Run"}, true},                   // C03
 	{"runinst", "core/engine/engine.go", "gen_prog_runinst", []string{"runNewInstance"}, true},                     // C05
 	{"phoutrun", "core/aggregator/netsample/phout.go", "gen_prog_phoutrun", []string{"phoutAggregator.Run"}, true}, // C06
+	{"fullscan", "components/providers/http/provider/provider.go", "gen_prog_fullscan", []string{"Provider.runFullScan"}, true}, // C14, C08
 }
 
 // constructors whose single composite-literal argument wraps the value that is returned
@@ -81,9 +82,14 @@ var gfQualConst = map[string]string{
 	"time.Second": "1000000000", "time.Minute": "60000000000", "time.Hour": "3600000000000",
 }
 
+// package-qualified error sentinels: distinct non-nil error codes (emitted as gen_qerr in traced files)
+var gfQualErr = map[string]string{
+	"context.Canceled": "2001", "decoders.ErrAmmoLimit": "2002", "decoders.ErrPassLimit": "2003", "decoders.ErrNoAmmo": "2004",
+}
+
 // package-qualified functions that are external calls (answered by the oracle of the bridge)
 var gfExternal = map[string]bool{"strconv.Atoi": true, "time.Now": true, "time.NewTimer": true,
-	"netsample.DiscardedShootSample": true}
+	"netsample.DiscardedShootSample": true, "errors.Is": true, "confutil.IsChosenCase": true}
 
 // plain functions of the same package that are external calls in traced targets (not translated themselves)
 var gfExternalIdent = map[string]bool{"newInstance": true}
@@ -285,6 +291,15 @@ func (t *gfFn) fieldVar(e ast.Expr) (string, bool) {
 		return "", false
 	}
 	id, ok := sel.X.(*ast.Ident)
+	if !ok && t.f.traced {
+		// p.Config.ChosenCases: a field of a field of an opaque value (traced targets)
+		if root := gfRoot(sel.X); root != nil && t.opaque[root.Name] {
+			if _, isSel := sel.X.(*ast.SelectorExpr); isSel {
+				return gfCallName(sel), true
+			}
+		}
+		return "", false
+	}
 	if !ok || !t.opaque[id.Name] {
 		return "", false
 	}
@@ -525,6 +540,9 @@ func (t *gfFn) expr(e ast.Expr, calls bool) (string, error) {
 				if c, ok := gfQualConst[id.Name+"."+x.Sel.Name]; ok {
 					return "ELit " + c, nil
 				}
+				if c, ok := gfQualErr[id.Name+"."+x.Sel.Name]; ok && t.f.traced {
+					return "ELit " + c, nil
+				}
 				if gfQualInput[id.Name+"."+x.Sel.Name] {
 					t.input(id.Name + "." + x.Sel.Name)
 					return "EVar " + gfQ(id.Name+"."+x.Sel.Name), nil
@@ -620,7 +638,7 @@ func (t *gfFn) expr(e ast.Expr, calls bool) (string, error) {
 				}
 				return "ELen (" + a + ")", nil
 			}
-		case "int", "int64", "time.Duration":
+		case "int", "int64", "uint", "time.Duration":
 			if len(x.Args) == 1 {
 				return t.expr(x.Args[0], calls)
 			}
@@ -630,7 +648,7 @@ func (t *gfFn) expr(e ast.Expr, calls bool) (string, error) {
 			if len(x.Args) == 0 {
 				return "ELit 0", nil
 			}
-		case "fmt.Errorf", "errors.New", "errors.Errorf":
+		case "fmt.Errorf", "errors.New", "errors.Errorf", "xerrors.Errorf":
 			for _, a := range x.Args {
 				if !gfPure(a) {
 					return "", t.errf(a, "argument of %s is not a plain value", name)
@@ -1176,6 +1194,28 @@ func (t *gfFn) stmt(st ast.Stmt) ([]string, error) {
 			default:
 				var u *ast.UnaryExpr
 				target := ""
+				if snd, isSend := cc.Comm.(*ast.SendStmt); isSend && t.f.traced {
+					// case ch <- v: when the clause fires the send is a collaborator call "ch<-" with the value
+					root := gfRoot(snd.Chan)
+					if root == nil || !t.opaque[root.Name] {
+						t.pop()
+						return nil, t.errf(cc, "select sends to something that is not a channel of a parameter")
+					}
+					v, err := t.expr(snd.Value, false)
+					if err != nil {
+						t.pop()
+						return nil, err
+					}
+					names = append(names, gfCallName(snd.Chan)+"<-")
+					call := &gfCall{kind: "SExt", name: gfCallName(snd.Chan) + "<-", traced: true, args: []string{v}, targs: []string{v}}
+					b, err := t.block(cc.Body)
+					t.pop()
+					if err != nil {
+						return nil, err
+					}
+					bodies = append(bodies, gfSeq(append(call.stmt(nil), b)))
+					continue
+				}
 				switch cs := cc.Comm.(type) {
 				case *ast.ExprStmt:
 					u, _ = cs.X.(*ast.UnaryExpr)
@@ -1238,7 +1278,7 @@ func gfHasCall(e ast.Node) bool {
 	ast.Inspect(e, func(n ast.Node) bool {
 		if c, ok := n.(*ast.CallExpr); ok {
 			switch gfCallName(c.Fun) {
-			case "len", "int", "int64", "time.Duration":
+			case "len", "int", "int64", "uint", "time.Duration", "fmt.Errorf", "errors.New", "errors.Errorf", "xerrors.Errorf":
 			default:
 				found = true
 			}
@@ -1682,6 +1722,18 @@ func genGoFn(what, repo, out string) error {
 			if tg.traced {
 				fmt.Fprintf(&b, "Definition gen_err_%s : Z := %d.\n", n, 1001+i)
 			}
+		}
+		if tg.traced {
+			var qn []string
+			for n := range gfQualErr {
+				qn = append(qn, n)
+			}
+			sort.Strings(qn)
+			var items []string
+			for _, n := range qn {
+				items = append(items, fmt.Sprintf("(%s, %s)", gfQ(n), gfQualErr[n]))
+			}
+			fmt.Fprintf(&b, "Definition %s_qerr : list (string * Z) := [%s].\n", tg.prog, strings.Join(items, "; "))
 		}
 		var entries []string
 		for _, fn := range tg.funcs {
